@@ -17,6 +17,7 @@ const (
 	sendBadChecksum
 	sendBadSignature
 	sendJunk
+	sendV1Plain // a well-formed v1 frame on a link whose node demands signatures
 )
 
 type sentItem struct {
@@ -186,6 +187,14 @@ func (l *link) send(kind int, split bool) error {
 		it.f.Signature[dsim.Choose(6)] ^= byte(1 + dsim.Choose(255))
 		it.bytes = it.f.Encode()
 		count("fault:peer-bad-signature")
+	case sendV1Plain:
+		var v2 *ref.Frame
+		v2, it.index = l.mkFrame()
+		g := &ref.Frame{V2: false, Seq: v2.Seq, Sys: l.sys, Comp: l.comp, MsgID: ref.DefTag.ID}
+		g.Payload = ref.DefTag.Encode(tagVals(byte(100+l.id), 0, it.index, uint16(l.id)), false)
+		g.Checksum = g.ComputeChecksum(ref.DefTag.CRCExtra())
+		it.f, it.bytes = g, g.Encode()
+		count("fault:peer-v1-on-keyed-link")
 	case sendJunk:
 		n := 1 + dsim.Choose(5)
 		for i := 0; i < n; i++ {
